@@ -99,6 +99,8 @@ def run_check(prop: str, tier: str, seed: int) -> int:
         finally:
             signal.alarm(0)
             signal.signal(signal.SIGALRM, old_handler)
+        # shared rule O: the rules once more for every new option an internal caller sets to a non-default value
+        _option_contexts(prop, mod, ctx, program, tier, _too_long)
         extra_cov, extra_exit = None, 0
         if tier == "thorough":
             from . import selftest
@@ -112,6 +114,43 @@ def run_check(prop: str, tier: str, seed: int) -> int:
     except Exception as e:  # never let a traceback look like a violation
         traceback.print_exc()
         return core.analysis_error(prop, tier, seed, t0, f"{type(e).__name__}: {e}", level)
+
+
+def _option_contexts(prop, mod, ctx, P, tier, too_long):
+    import signal
+
+    from . import options
+    from .symeval import Interp
+
+    entries = set(Interp._ENTRY_SEEN)
+    if not entries:
+        return
+    base = {(o.rule, o.construct, o.signature) for o in ctx.obligs if o.status == "violated"}
+    for oc in options.discover(P):
+        if oc.callee not in entries:
+            continue
+        sub = core.Ctx(prop, P, tier)
+        Interp._OPTION_CONTEXT = {oc.callee: oc.params}
+        old_handler = signal.signal(signal.SIGALRM, too_long)
+        signal.alarm(BUDGET_S)
+        try:
+            mod.check(sub)
+        except (AnalysisError, NFError) as e:
+            if not any(o.status == "violated" and (o.rule, o.construct, o.signature) not in base for o in sub.obligs):
+                raise AnalysisError(f"[{oc.callee.split('.', 2)[-1]} {oc.descr}] {e}")
+            ctx.notes.append(f"option context {oc.descr}: remaining rules not evaluated: {e}")
+        finally:
+            signal.alarm(0)
+            signal.signal(signal.SIGALRM, old_handler)
+            Interp._OPTION_CONTEXT = {}
+        new = [o for o in sub.obligs if o.status == "violated" and (o.rule, o.construct, o.signature) not in base]
+        for o in new:
+            o.construct = f"{o.construct} [{oc.callee.split('.')[-1]} {oc.descr}]"
+            o.where = f"{oc.file}:{oc.line}"
+            o.detail = dict(o.detail, option_context=oc.descr, callee=oc.callee)
+            ctx.obligs.append(o)
+        ctx.functions.update(sub.functions)
+        ctx.notes.append(f"option context analysed: {oc.callee} {oc.descr}: {len(sub.obligs)} obligations, {len(new)} new violations")
 
 
 def main(argv=None):
